@@ -48,11 +48,14 @@ import (
 	"seehuhn.de/go/sfnt/header"
 	"seehuhn.de/go/sfnt/internal/debug"
 	"seehuhn.de/go/sfnt/kern"
+	"seehuhn.de/go/sfnt/opentype/anchor"
 	"seehuhn.de/go/sfnt/opentype/classdef"
+	"seehuhn.de/go/sfnt/opentype/coverage"
 	"seehuhn.de/go/sfnt/opentype/gdef"
 	"seehuhn.de/go/sfnt/opentype/gtab"
 	"seehuhn.de/go/sfnt/opentype/gtab/builder"
 	"seehuhn.de/go/sfnt/opentype/gtab/testcases"
+	"seehuhn.de/go/sfnt/opentype/markarray"
 )
 
 // ---- fonts ------------------------------------------------------------------------------------
@@ -100,6 +103,149 @@ const concGposDesc = `
 	  base B: @500,1000 @600,900;
 	  base C: @500,1000 @500,-1000;
 `
+
+// concAllGsub / concAllGpos: every lookup type the builder language can express, all three
+// formats of the (chained) context lookups with nested actions, an alternate set that is NOT in
+// glyph-id order (lookup 3), ligature sets (lookup 4), and a recursion that exhausts the budget
+// of 64 nested actions with frames pending (lookups 7-9: "QQQQQQQQ" runs 9 actions, each of
+// which runs 9 more).
+const concAllGsub = `
+	GSUB1: A->B, M->N
+	GSUB1: A->X, B->Y, C->A
+	GSUB2: A -> "AA", B -> "AB", C -> "ABAAC"
+	GSUB3: A -> [ "DCB" ], E -> [ "ZFY" ]
+	GSUB4: -marks A A A -> B, A -> D, A A -> C, F I -> K, F L -> L
+	GSUB5:
+		"AAA" -> 1@0 2@1 1@0, "AAB" -> 1@0 1@1 2@0 ||
+		class :alpha: = [A-K]
+		class :digits: = [L-Z]
+		/A B C/ :alpha: :digits: -> 2@1, :alpha: :: :digits: -> 2@2 ||
+		[A B C] [A C] [A D] -> 3@0
+	GSUB6:
+		A B | C D | E F -> 1@0 2@1, B | C D E | F -> 1@2 ||
+		inputclass :ABC: = ["ABC"]
+		backtrackclass :DEF: = ["DEF"]
+		lookaheadclass :DEF: = ["DEF"]
+		/A B C/ :DEF: :: | :ABC: | :: :DEF: -> 1@0 ||
+		[A] [A B C] | [A B] [A C] [B C] | [A B C] [A B C] -> 1@0 1@1 1@2
+	GSUB5: "QQQQQQQQ" -> 8@0 8@1 8@2 8@3 8@4 8@5 8@6 8@7 8@0
+	GSUB5: Q -> 9@0 9@0 9@0 9@0 9@0 9@0 9@0 9@0 9@0
+	GSUB1: Z->Y
+`
+
+const concAllGpos = concGposDesc + `
+	GPOS7: "AV" -> 0@0 1@1, A B C -> 0@1 ||
+		class :alpha: = [A-K]
+		class :digits: = [L-Z]
+		/A B C/ :alpha: :digits: -> 1@1
+	GPOS8: A | V W | A -> 1@0, B | C D E | F -> 0@2
+	GPOS7: "QQQQQQQQ" -> 8@0 8@1 8@2 8@3 8@4 8@5 8@6 8@7 8@0
+	GPOS7: Q -> 0@0 0@0 0@0 0@0 0@0 0@0 0@0 0@0 0@0
+`
+
+// concAddAll installs the synthetic layout tables.  extra adds what the builder language (and
+// therefore Explain*/Subset) cannot handle: GSUB 8.1, GPOS 5.1 and 6.1, and a GDEF table with
+// mark attachment classes and mark glyph sets used by a lookup with UseMarkFilteringSet.
+func concAddAll(f *sfnt.Font, level int) {
+	extra := level >= 1
+	cm, err := f.CMapTable.GetBest()
+	if err != nil {
+		panic(err)
+	}
+	g := func(r rune) glyph.ID { return cm.Lookup(r) }
+	gs, err := builder.Parse(f, concAllGsub)
+	if err != nil {
+		panic(err)
+	}
+	gp, err := builder.Parse(f, concAllGpos)
+	if err != nil {
+		panic(err)
+	}
+	if extra {
+		gs = append(gs, &gtab.LookupTable{
+			Meta: &gtab.LookupMetaInfo{LookupType: 8},
+			Subtables: []gtab.Subtable{&gtab.Gsub8_1{
+				Input:              coverage.Table{g('G'): 0, g('H'): 1},
+				Backtrack:          []coverage.Table{{g('A'): 0, g('B'): 1}},
+				Lookahead:          []coverage.Table{{g('I'): 0}, {g('J'): 0, g('K'): 1}},
+				SubstituteGlyphIDs: []glyph.ID{g('S'), g('T')},
+			}},
+		})
+		gpos5 := &gtab.LookupTable{
+			Meta: &gtab.LookupMetaInfo{LookupType: 5},
+			Subtables: []gtab.Subtable{&gtab.Gpos5_1{
+				MarkCov:   coverage.Table{g('M'): 0, g('N'): 1},
+				LigCov:    coverage.Table{g('K'): 0, g('L'): 1},
+				MarkArray: []markarray.Record{{Class: 0, Table: anchor.Table{X: 10, Y: 20}}, {Class: 1, Table: anchor.Table{X: 30, Y: 40}}},
+				LigArray: [][][]anchor.Table{
+					{{{X: 100, Y: 700}, {X: 110, Y: 710}}, {{X: 300, Y: 700}, {X: 310, Y: 710}}},
+					{{{X: 120, Y: 690}, {X: 130, Y: 680}}, {{X: 320, Y: 690}, {X: 330, Y: 680}}, {{X: 520, Y: 690}, {X: 530, Y: 680}}},
+				},
+			}},
+		}
+		gp = append(gp,
+			&gtab.LookupTable{
+				Meta: &gtab.LookupMetaInfo{LookupType: 6, LookupFlags: gtab.UseMarkFilteringSet, MarkFilteringSet: 1},
+				Subtables: []gtab.Subtable{&gtab.Gpos6_1{
+					Mark1Cov:   coverage.Table{g('N'): 0},
+					Mark2Cov:   coverage.Table{g('M'): 0},
+					Mark1Array: []markarray.Record{{Class: 1, Table: anchor.Table{X: 5, Y: 6}}},
+					Mark2Array: [][]anchor.Table{{{X: 50, Y: 800}, {X: 60, Y: 810}}},
+				}},
+			})
+		f.Gdef = &gdef.Table{
+			GlyphClass: classdef.Table{
+				g('B'): gdef.GlyphClassBase, g('K'): gdef.GlyphClassLigature, g('L'): gdef.GlyphClassLigature,
+				g('M'): gdef.GlyphClassMark, g('N'): gdef.GlyphClassMark,
+			},
+			MarkAttachClass: classdef.Table{g('M'): 1, g('N'): 2},
+			MarkGlyphSets:   []coverage.Set{{g('M'): true}, {g('M'): true, g('N'): true}},
+		}
+		gs[1].Meta.LookupFlags |= gtab.UseMarkFilteringSet
+		gs[1].Meta.MarkFilteringSet = 0
+		if level >= 2 { // Gpos5_1 has no encoder: Write panics "not implemented" on this font
+			gp = append(gp, gpos5)
+		}
+	}
+	all := func(n int) []gtab.LookupIndex {
+		l := make([]gtab.LookupIndex, n)
+		for i := range l {
+			l[i] = gtab.LookupIndex(i)
+		}
+		return l
+	}
+	top := func(ll gtab.LookupList, skip map[int]bool) []gtab.LookupIndex {
+		var l []gtab.LookupIndex
+		for i := range ll {
+			if !skip[i] {
+				l = append(l, gtab.LookupIndex(i))
+			}
+		}
+		return l
+	}
+	_ = all
+	f.Gsub = &gtab.Info{
+		ScriptList: map[language.Tag]*gtab.Features{
+			language.MustParse("und-Zzzz"): {Required: 0, Optional: []gtab.FeatureIndex{1}},
+		},
+		FeatureList: []*gtab.Feature{
+			{Tag: "test", Lookups: top(gs, map[int]bool{8: true, 9: true})[:4]},
+			{Tag: "liga", Lookups: top(gs, map[int]bool{8: true, 9: true})[4:]},
+		},
+		LookupList: gs,
+	}
+	nq := len(strings.Split(concGposDesc, "GPOS")) - 1 // lookups of the base description
+	f.Gpos = &gtab.Info{
+		ScriptList: map[language.Tag]*gtab.Features{
+			language.MustParse("und-Zzzz"): {Required: 0, Optional: []gtab.FeatureIndex{1}},
+		},
+		FeatureList: []*gtab.Feature{
+			{Tag: "kern", Lookups: top(gp, map[int]bool{nq + 3: true})[:3]},
+			{Tag: "mark", Lookups: top(gp, map[int]bool{nq + 3: true})[3:]},
+		},
+		LookupList: gp,
+	}
+}
 
 var concFixedTime = time.Date(2024, 5, 17, 12, 0, 0, 0, time.UTC)
 
@@ -167,6 +313,44 @@ var concNameFonts = []string{"sttf", "sttfdup", "sttfempty", "sttfnotdef0", "stt
 // concRawFonts: TrueType fonts whose raw tables (shared with header.Write) have lengths that are
 // not multiples of four and spare capacity over live data or over poisoned bytes.
 var concRawFonts = []string{"sttf+img", "sttf+imgj", "sttf+odd", "ttf+img", "ttf+odd", "sttfnest+img"}
+
+// concLayoutFonts: synthetic layout tables covering every subtable type (see concAddAll).
+var concLayoutFonts = []string{"cffall", "cffallx", "cffall5", "sttfall", "sttfallx", "cffsub", "sttfsub"}
+
+// concSubGsub / concSubGpos: only the lookup types Subset implements (GSUB 1.1 and 4.1, GPOS
+// pair format 2.1 — GPOS 1 subsets cannot be written), so that Subset runs through and rewrites whole ligature rules.
+const concSubGsub = `
+	GSUB1: A->B, M->N
+	GSUB4: F I -> K, F L -> L, F F I -> M, A A A -> B, A A -> C, T T -> U
+	GSUB4: -marks O O -> P, O E -> Q
+`
+const concSubGpos = `
+	GPOS2: A V -> dx-100, O O -> dx+100, "AW" -> dx-100
+	GPOS2: T E -> y+100 dx-50 & y-100
+`
+
+func concAddSub(f *sfnt.Font) {
+	gs, err := builder.Parse(f, concSubGsub)
+	if err != nil {
+		panic(err)
+	}
+	gp, err := builder.Parse(f, concSubGpos)
+	if err != nil {
+		panic(err)
+	}
+	und := language.MustParse("und-Zzzz")
+	f.Gsub = &gtab.Info{
+		ScriptList:  map[language.Tag]*gtab.Features{und: {Required: 0}},
+		FeatureList: []*gtab.Feature{{Tag: "liga", Lookups: []gtab.LookupIndex{0, 1, 2}}},
+		LookupList:  gs,
+	}
+	f.Gpos = &gtab.Info{
+		ScriptList:  map[language.Tag]*gtab.Features{und: {Required: 0}},
+		FeatureList: []*gtab.Feature{{Tag: "kern", Lookups: []gtab.LookupIndex{0, 1}}},
+		LookupList:  gp,
+	}
+	f.Gdef = nil
+}
 
 // concShapeFonts: variants taken from the interesting-input lists of the other properties.
 var concShapeFonts = []string{"sttfnest", "sttfkern", "sttf12", "sttfgtab", "cidmulti", "cff12"}
@@ -468,10 +652,16 @@ func concFontRaw(id string) *sfnt.Font {
 		case "sttfgtab":
 			concAddGtab(f)
 			f.Gdef = nil
+		case "sttfsub":
+			concAddSub(f)
+		case "sttfall":
+			concAddAll(f, 0)
+		case "sttfallx":
+			concAddAll(f, 1)
 		default:
 			panic("unknown font id " + id)
 		}
-	case id == "cffdup", id == "cffempty", id == "cffnotdef0", id == "cidmulti", id == "cff12":
+	case id == "cffdup", id == "cffempty", id == "cffnotdef0", id == "cidmulti", id == "cff12", id == "cffall", id == "cffallx", id == "cffall5", id == "cffsub":
 		f = debug.MakeSimpleFont()
 		f.CreationTime, f.ModificationTime = concFixedTime, concFixedTime
 		o := f.Outlines.(*cff.Outlines)
@@ -490,6 +680,14 @@ func concFontRaw(id string) *sfnt.Font {
 			concMultiFD(f)
 		case "cff12":
 			concCmap12(f)
+		case "cffsub":
+			concAddSub(f)
+		case "cffall5":
+			concAddAll(f, 2)
+		case "cffall":
+			concAddAll(f, 0)
+		case "cffallx":
+			concAddAll(f, 1)
 		}
 	case id == "ttf":
 		f = concReadTTF(goregular.TTF)
@@ -574,6 +772,12 @@ func (r *concRng) next() uint64 {
 }
 func (r *concRng) intn(n int) int { return int(r.next() % uint64(n)) }
 
+// concTriggers are texts that make particular lookups of the synthetic tables fire: ligatures,
+// unsorted alternates, (chained) contexts of all formats, reverse chaining, mark attachment, and
+// the recursion that exhausts the budget of 64 nested actions.
+var concTriggers = []string{"QQQQQQQQ", "QQQQQQQQQQQQQQQQQ", "FI", "FL", "AAA", "AAB", "AE", "BCDEF", "ABCDEF", "ABCL",
+	"AV", "OO", "TE", "AVWA", "KM", "LN", "KMN", "NM", "AGIJ", "BHIK", "ABC", "BM", "AMAMA", "DEFAGHI"}
+
 func concText(r *concRng) string {
 	const pool = "AAABBCCDEFGHIJKLMNOPQRSTUVWXYZ AVTEOOW"
 	n := 1 + r.intn(14)
@@ -581,7 +785,14 @@ func concText(r *concRng) string {
 	for i := range b {
 		b[i] = pool[r.intn(len(pool))]
 	}
-	return string(b)
+	s := string(b)
+	switch r.intn(3) {
+	case 0:
+		s = concTriggers[r.intn(len(concTriggers))] + " " + s
+	case 1:
+		s = s + " " + concTriggers[r.intn(len(concTriggers))] + concTriggers[r.intn(len(concTriggers))]
+	}
+	return s
 }
 
 func concSeq(f *sfnt.Font, s string) []glyph.Info {
@@ -631,9 +842,23 @@ var concOps = []concOp{
 	}},
 	{"subset", "", func(f *sfnt.Font, r *concRng) string {
 		n := f.NumGlyphs()
+		most := r.intn(2) == 0 // first draw: the generator can force this mode through the argument
 		k := 1 + r.intn(12)
 		seen := map[int]bool{0: true}
-		glyphs := make([]glyph.ID, 1, 40) // spare capacity: Subset appends to the caller's list
+		glyphs := make([]glyph.ID, 1, n+40) // spare capacity: Subset appends to the caller's list
+		if most && n > 8 {
+			// keep (almost) everything, so that whole rules (all components and the output of a
+			// ligature, both glyphs of a pair) survive — but drop a few low glyphs, so that every
+			// retained glyph gets a NEW id
+			drop := map[int]bool{1 + r.intn(3): true, 1 + r.intn(8): true}
+			for g := 1; g < n; g++ {
+				if !drop[g] {
+					seen[g] = true
+					glyphs = append(glyphs, glyph.ID(g))
+				}
+			}
+			k = 0
+		}
 		for len(glyphs) < k && len(glyphs) < n {
 			g := r.intn(n)
 			if !seen[g] {
@@ -646,9 +871,13 @@ var concOps = []concOp{
 		}
 		sort.Slice(glyphs, func(i, j int) bool { return glyphs[i] < glyphs[j] })
 		sub := f.Subset(glyphs)
-		var buf bytes.Buffer
-		wn, err := sub.Write(&buf)
-		return fmt.Sprintf("ng=%d,n=%d,err=%v,%s", sub.NumGlyphs(), wn, err, concSum(buf.Bytes()))
+		// the subset itself, then its written form (writing some subsets panics: reported, not fatal)
+		res := fmt.Sprintf("ng=%d,h=%x,", sub.NumGlyphs(), deepHash(sub.Gsub)^deepHash(sub.Gpos)^deepHash(sub.CMapTable))
+		return res + guard(func() string {
+			var buf bytes.Buffer
+			wn, err := sub.Write(&buf)
+			return fmt.Sprintf("n=%d,err=%v,%s", wn, err, concSum(buf.Bytes()))
+		})
 	}},
 	{"clone", "", func(f *sfnt.Font, r *concRng) string {
 		c := f.Clone()
@@ -718,6 +947,12 @@ var concOps = []concOp{
 			b.WriteString(concShowSeq(l.Layout(concText(r))))
 			b.WriteByte('|')
 		}
+		if f.Gsub != nil || f.Gpos != nil { // every trigger text, incl. the budget-exhausting one
+			for _, t := range concTriggers {
+				b.WriteString(concShowSeq(l.Layout(t)))
+				b.WriteByte('|')
+			}
+		}
 		return concShort(b.String())
 	}},
 	{"gtabapply", "gtab", func(f *sfnt.Font, r *concRng) string {
@@ -736,6 +971,10 @@ var concOps = []concOp{
 		var b strings.Builder
 		for i := 0; i < 2; i++ {
 			b.WriteString(concShowSeq(ctx.Apply(concSeq(f, concText(r)))))
+			b.WriteByte('|')
+		}
+		for _, t := range concTriggers {
+			b.WriteString(concShowSeq(ctx.Apply(concSeq(f, t))))
 			b.WriteByte('|')
 		}
 		return concShort(b.String())
@@ -1044,6 +1283,26 @@ func concHdrWrite(fd Fields) string {
 	return "unchanged"
 }
 
+// concSelfTest: `conc.selftest font=<id>` — completeness of the snapshot on this font: a planted
+// write into every slice (first, last, first spare-capacity element) and every map reachable from
+// the font must change the deep hash.
+func concSelfTest(fd Fields) string {
+	f := concFont(fd["font"])
+	sites, skipped, missed := deepHashSelfTest(f)
+	concNotes = append(concNotes, "selftest.sites:"+bucket(sites), "selftest.unwritable-sites:"+bucket(skipped))
+	if len(missed) > 0 {
+		first := missed[0]
+		if len(first) > 120 {
+			first = first[:120]
+		}
+		return fmt.Sprintf("incomplete:missed=%d,of=%d,first=%s", len(missed), sites, strings.ReplaceAll(first, " ", "_"))
+	}
+	if sites < 50 {
+		return fmt.Sprintf("incomplete:only-%d-sites", sites)
+	}
+	return "complete"
+}
+
 // ---- race detector --------------------------------------------------------------------------------
 
 var (
@@ -1183,6 +1442,7 @@ func areaConc(c *Ctx) {
 	fonts = append(fonts, concNameFonts...)
 	fonts = append(fonts, concShapeFonts...)
 	fonts = append(fonts, concRawFonts...)
+	fonts = append(fonts, concLayoutFonts...)
 	for _, i := range []int{0, 7, 19, 33, 48, 61, 77, 90, 104, 118} {
 		if i < len(testcases.Gsub) {
 			fonts = append(fonts, fmt.Sprintf("tc%d", i))
@@ -1206,10 +1466,12 @@ func areaConc(c *Ctx) {
 			return Pick(c.Rng, concFontIDs)
 		case x < 6:
 			return Pick(c.Rng, concNameFonts)
-		case x < 7:
+		case x < 6:
 			return Pick(c.Rng, concShapeFonts)
-		case x < 8:
+		case x < 7:
 			return Pick(c.Rng, concRawFonts)
+		case x < 9:
+			return Pick(c.Rng, concLayoutFonts)
 		}
 		return Pick(c.Rng, fonts)
 	}
@@ -1235,7 +1497,7 @@ func areaConc(c *Ctx) {
 
 	// 1. purity: thorough — every operation on every base font; then (both tiers) the operations
 	// in rotation on random fonts, mostly ones they are meaningful for
-	nPure := c.N * 2 / 5
+	nPure := c.N / 2
 	pure := func(op, id string) {
 		out := c.Case(Direct, "conc.pure", fmt.Sprintf("op=%s font=%s arg=%d", op, id, c.Rng.U64()>>1), true)
 		c.Stat("pure.op", op)
@@ -1263,6 +1525,30 @@ func areaConc(c *Ctx) {
 			pure(op, id)
 			i++
 		}
+	}
+	for _, id := range concLayoutFonts {
+		for _, op := range []string{"explaingsub", "explaingpos", "layout", "gtabapply", "subset", "write", "findlookups"} {
+			pure(op, id)
+			i++
+		}
+		// Subset keeping (almost) all glyphs under new ids: whole ligature and pair rules survive
+		arg := c.Rng.U64() >> 1
+		for (&concRng{s: arg}).intn(2) != 0 {
+			arg = c.Rng.U64() >> 1
+		}
+		c.Stat("pure.result", strings.SplitN(c.Case(Direct, "conc.pure", fmt.Sprintf("op=subset font=%s arg=%d", id, arg), true), ":", 2)[0])
+		c.Stat("pure.op", "subset(most)")
+		drain()
+		i++
+	}
+	// completeness of the snapshot itself (a planted write in every slice/map must change the hash)
+	self := []string{"cffallx", "cffall5", "cffsub", "cid"}
+	if thorough {
+		self = append(self, "sttfsub", "sttfallx", "cidmulti", "cffgtab")
+	}
+	for _, id := range self {
+		c.Stat("selftest.result", strings.SplitN(c.Case(Verdict, "conc.selftest", "font="+id, true), ":", 2)[0])
+		drain()
 	}
 	if thorough {
 		for _, id := range concFontIDs {
@@ -1393,6 +1679,7 @@ func init() {
 	ops["conc.pure"] = concPure
 	ops["conc.parallel"] = concParallel
 	ops["conc.hdrwrite"] = concHdrWrite
+	ops["conc.selftest"] = concSelfTest
 	ops["conc.race"] = concRace
 	ops["conc.raceinfo"] = func(f Fields) string { return "info" }
 	// positive controls: only the class of the outcome is reported
